@@ -7,7 +7,6 @@ import c2lean, c2lean2, vlib
 INC = ['-I' + os.path.join(vlib.REPO, 'include'), '-DNDEBUG']
 UNITS = {
     'Rand': (os.path.join(vlib.REPO, 'librfn/rand.c'), ['rand31_r']),
-    'Hex': (os.path.join(vlib.REPO, 'librfn/hex.c'), ['hexchar', 'nibble']),
     'Wav': (os.path.join(vlib.REPO, 'librfn/wavheader.c'), ['rf_wavheader_get_format']),
     'Util': (os.path.join(vlib.REPO, 'librfn/util.c'), ['cyclecmp32']),
 }
@@ -24,6 +23,7 @@ UNITS2 = {
     # C16: helpers are inlined, loops (a harmless rewrite may count nibbles or bits in one) unrolled 32 times
     'BitopsSeq': (os.path.join(vlib.REPO, 'librfn/bitops.c'), ['bitcnt', 'clz', 'ctz', 'ilog2'], 32),
     'ConstexprSeq': (os.path.join(vlib.VERIF, 'harness/wrap_constexpr.c'), ['w_const_pop', 'w_const_lssb'], 32),
+    'HexSeq': (os.path.join(vlib.REPO, 'librfn/hex.c'), ['hexchar', 'nibble'], 16),
     'RotencSeq': (os.path.join(vlib.REPO, 'librfn/rotenc.c'), ['rotenc_decode', 'rotenc_count14', 'rotenc_count'], 4),
     # one iteration of the POSIX main loop; the clock, the scheduling pass and the sleep are the environment
     'MainLoopSeq': (os.path.join(vlib.VERIF, 'harness/wrap_mainloop.c'), ['fibre_scheduler_main_loop'], 1,
